@@ -562,6 +562,12 @@ let op_udp opidx (_impl : string list option) toks =
                       | Some (t0, cl0) when t - t0 <= 60 ->
                           spec opidx "C10_udp_same_association" (cl = cl0) (Printf.sprintf "%s at %d and %d: %s then %s" src t0 t cl0 cl)
                       | _ -> ());
+                     (* C02: and it shares its client object with no OTHER source that is still within its idle period --
+                        a reply goes to the client object's address, i.e. to the association that sent the request *)
+                     Hashtbl.iter (fun src' (t0, cl0) ->
+                         if src' <> src && t - t0 < 60 then
+                           spec opidx "C02_udp_sources_not_merged" (cl <> cl0)
+                             (Printf.sprintf "%s (at %d) was given the client object of %s (seen at %d): %s" src t src' t0 cl)) last;
                      Hashtbl.replace last src (t, cl)
                  | _ -> ())
             | None -> ())
